@@ -49,6 +49,32 @@ type lfsServer struct {
 	hashAlgo string // != "": `hash_algo` of every batch response
 	mutate   func(kind string, v map[string]interface{}) // corrupt a response just before it is sent (C18)
 	cursorsHanded map[string]bool
+	hdrStyle   int  // how the server spells the header NAMES of the actions it offers: 0 canonical, 1 lower, 2 upper, 3 mixed
+	offerExtra bool // offered actions also carry Authorization (and, for uploads, Content-Type)
+}
+
+// actHeader is the header set of an offered action. HTTP header names are case-insensitive, so the
+// spelling the server happens to use must not change what reaches the storage endpoint.
+func (s *lfsServer) actHeader(kind, oid string) map[string]string {
+	sp := func(n string) string {
+		switch s.hdrStyle {
+		case 1:
+			return strings.ToLower(n)
+		case 2:
+			return strings.ToUpper(n)
+		case 3:
+			return strings.ToLower(n[:1]) + n[1:len(n)-1] + strings.ToUpper(n[len(n)-1:])
+		}
+		return n
+	}
+	h := map[string]string{sp("X-Verif-Action"): kind + "-" + oid[:8]}
+	if s.offerExtra {
+		h[sp("Authorization")] = "Token verif-" + kind + "-" + oid[:6]
+		if kind == "upload" {
+			h[sp("Content-Type")] = "application/x-verif-" + oid[:4]
+		}
+	}
+	return h
 }
 
 func newLfsServer() *lfsServer {
@@ -60,13 +86,13 @@ func newLfsServer() *lfsServer {
 func (s *lfsServer) capture(r *http.Request, body []byte, kind string) {
 	h := map[string]string{}
 	for _, k := range []string{"Accept", "Content-Type", "Authorization", "Content-Length", "Transfer-Encoding"} {
-		if v := r.Header.Get(k); v != "" {
-			h[k] = v
+		if v := r.Header.Values(k); len(v) > 0 {
+			h[k] = strings.Join(v, " || ") // a header sent twice shows as "a || b"
 		}
 	}
 	for k, v := range r.Header {
 		if strings.HasPrefix(k, "X-Verif-") {
-			h[k] = v[0]
+			h[k] = strings.Join(v, " || ")
 		}
 	}
 	b := string(body)
@@ -157,16 +183,16 @@ func (s *lfsServer) handle(w http.ResponseWriter, r *http.Request) {
 			_, have := s.objs[o.Oid]
 			if req.Operation == "upload" {
 				if !have {
-					hdr := map[string]string{"X-Verif-Action": "upload-" + o.Oid[:8]}
+					hdr := s.actHeader("upload", o.Oid)
 					ob.Actions = map[string]act{"upload": {Href: s.srv.URL + "/storage/" + o.Oid, Header: hdr}}
 					if !s.noVerify {
-						ob.Actions["verify"] = act{Href: s.srv.URL + "/verify", Header: map[string]string{"X-Verif-Action": "verify-" + o.Oid[:8]}}
+						ob.Actions["verify"] = act{Href: s.srv.URL + "/verify", Header: s.actHeader("verify", o.Oid)}
 					}
 					s.lastUploadAction[o.Oid] = "upload-" + o.Oid[:8]
 				}
 			} else {
 				if have {
-					ob.Actions = map[string]act{"download": {Href: s.srv.URL + "/storage/" + o.Oid, Header: map[string]string{"X-Verif-Action": "download-" + o.Oid[:8]}}}
+					ob.Actions = map[string]act{"download": {Href: s.srv.URL + "/storage/" + o.Oid, Header: s.actHeader("download", o.Oid)}}
 				} else {
 					ob.Error = &oerr{404, "object not found"}
 				}
